@@ -150,6 +150,16 @@ def faults(tier):
     paired("interleaved-name-mismatch", clih.fastq_text([x for p in zip(r1, [("zz",) + r2[0][1:]] + r2[1:]) for x in p]).encode(),
            None, interleaved=True)
     if tier == "thorough":
+        # other containers: truncated bz2 / xz streams (the decompressors fail with other exception types than gzip)
+        import bz2
+        import lzma
+
+        for name, blob in (("in.fq.bz2", bz2.compress(text)), ("in.fq.xz", lzma.compress(text))):
+            for off in sorted(set(list(range(1, len(blob), 7)) + [len(blob) - 1, len(blob) - 2])):
+                F.append(dict(kind="trunc-" + name.split(".")[-1], off=off, files={name: blob[:off]}, malformed=(off != 0)))
+        # interleaved input cut at every 5th byte
+        for off in range(0, len(il), 5):
+            F.append(dict(kind="trunc-interleaved", off=off, files={"il.fq": il[:off]}, paired="interleaved", malformed=None))
         # truncation of both paired files at every offset of R2
         for off in range(0, len(t2), 3):
             # R2 cut anywhere before its end: mates are missing (cut at a record boundary) or the last record is broken
@@ -161,6 +171,12 @@ def faults(tier):
 
 def verdict(f):
     """Is the damaged input well-formed, and which records are its good prefix?  (single-end faults)"""
+    if f.get("kind") == "trunc-interleaved":
+        data = next(iter(f["files"].values()))
+        recs, ok = good_prefix_records(data)
+        return (ok and len(recs) % 2 == 0), None
+    if f.get("kind") in ("trunc-bz2", "trunc-xz"):
+        return (not f["malformed"]), ([] if not f["malformed"] else None)
     if "malformed" in f and f.get("paired"):
         return (not f["malformed"]), None
     name, data = next(iter(f["files"].items()))
